@@ -109,6 +109,27 @@ func main() {
 				cases = append(cases, &caseRec{id: fmt.Sprintf("c%d.%s", i, route), si: si, level: c.Level, route: route, v: c.V})
 			}
 		}
+		// the shape zoo: every (slot, flags, value kind) combination compiled in every run; values stay
+		// on the routes the unchanged generated code supports (no AssignNode of foreign data here)
+		for i, t := range lib.SchShapeZoo() {
+			lib.SchAssignNames(t, fmt.Sprintf("Z%d", i))
+			si := len(schemas)
+			schemas = append(schemas, t)
+			for _, level := range []byte{'t', 'r'} {
+				for j := 0; j < 4; j++ {
+					var mut *lib.SchMut
+					if j >= 2 {
+						mut = &lib.SchMut{R: rng, Budget: 1, Rate: 25}
+					}
+					v := rng.SchValue(t, level, mut)
+					base := fmt.Sprintf("z%d.%c%d", i, level, j)
+					cases = append(cases, &caseRec{id: base + ".direct", si: si, level: level, route: "direct", v: v})
+					if !v.HasDupKeys() {
+						cases = append(cases, &caseRec{id: base + ".cbor", si: si, level: level, route: "cbor", v: v})
+					}
+				}
+			}
+		}
 		cfg := &lib.SchGenCfg{MaxDepth: 4, ForGen: true}
 		for i := 0; i < n; i++ {
 			t := rng.SchGen(cfg)
